@@ -89,12 +89,32 @@ func mkKey(v, id []byte) crypto.AuthKey {
 	return k
 }
 
-func decrypt(side int, k crypto.AuthKey, ct []byte) decObs {
+// entry points of the decryption API: DecryptFromBuffer (frame bytes), and Decrypt on a message the
+// caller decoded itself with Decode (copying) or DecodeWithoutCopy. All must behave identically.
+var entryNames = []string{"DecryptFromBuffer", "Decode+Decrypt", "DecodeWithoutCopy+Decrypt"}
+
+func decrypt(side int, k crypto.AuthKey, ct []byte) decObs { return decryptVia(0, side, k, ct) }
+
+func decryptVia(entry, side int, k crypto.AuthKey, ct []byte) decObs {
 	var o decObs
 	var d *crypto.EncryptedMessageData
 	var err error
 	p, pv := hx.Recover(func() {
-		d, err = cipherFor(side, nil).DecryptFromBuffer(k, &bin.Buffer{Buf: append([]byte(nil), ct...)})
+		buf := &bin.Buffer{Buf: append([]byte(nil), ct...)}
+		switch entry {
+		case 0:
+			d, err = cipherFor(side, nil).DecryptFromBuffer(k, buf)
+		case 1:
+			var m crypto.EncryptedMessage
+			if err = m.Decode(buf); err == nil {
+				d, err = cipherFor(side, nil).Decrypt(k, &m)
+			}
+		default:
+			var m crypto.EncryptedMessage
+			if err = m.DecodeWithoutCopy(buf); err == nil {
+				d, err = cipherFor(side, nil).Decrypt(k, &m)
+			}
+		}
 	})
 	if p {
 		return decObs{Code: 99, Err: fmt.Sprint(pv)}
@@ -125,6 +145,19 @@ func run(c *hx.Ctx, t tc, emit bool) decObs {
 		sh, ix = c.Case(hx.Tuple(hx.Z(int64(t.Side)), hx.PackedBytes(t.Key), hx.PackedBytes(t.KeyID), hx.PackedBytes(t.CT), coqDec(o)), t)
 	}
 	c.Count(t.Class + " -> " + errNames[o.Code])
+	// every entry point of the API must give the same verdict and the same data, and none may panic
+	for e := 1; e < len(entryNames); e++ {
+		oe := decryptVia(e, t.Side, mkKey(t.Key, t.KeyID), t.CT)
+		c.Obs.Evaluations++
+		switch {
+		case oe.Code == 99:
+			c.Violate("decrypt-panic", fmt.Sprintf("%s panicked on a %s input of %d bytes: %s", entryNames[e], t.Class, len(t.CT), oe.Err), sh, ix, t)
+		case oe.NonNilOnError:
+			c.Violate("error-leaks-data", entryNames[e]+" returned a message together with an error", sh, ix, t)
+		case oe.Code != o.Code || oe.Salt != o.Salt || oe.Session != o.Session || oe.MsgID != o.MsgID || oe.SeqNo != o.SeqNo || oe.MLen != o.MLen || !bytes.Equal(oe.Body, o.Body):
+			c.Violate("entry-points-disagree", fmt.Sprintf("%s input of %d bytes: DecryptFromBuffer -> %s (%s) but %s -> %s (%s)", t.Class, len(t.CT), errNames[o.Code], o.Err, entryNames[e], errNames[oe.Code], oe.Err), sh, ix, t)
+		}
+	}
 	switch {
 	case o.Code == 99:
 		c.Violate("decrypt-panic", fmt.Sprintf("DecryptFromBuffer panicked on a %s mutant: %s", t.Class, o.Err), sh, ix, t)
@@ -340,6 +373,6 @@ func main() {
 		}
 		run(c, tc{Class: "random-bytes", Side: r.Intn(2), Key: b, KeyID: id[:], CT: ct, Expect: "reject"}, emitEvery(i, 4))
 	}
-	c.Obs.Rule = "mutants of valid ciphertexts produced by Cipher.Encrypt (payload 0..128 bytes): every single bit of one 72-byte message; per base message single bits per region, multi-bit, truncation to multiples of 16 and ragged, extensions, block swap, splice, reflection (same side decrypts), foreign keys (other id / same id / one key byte), random byte strings. Oracle on the implementation: any accepted mutant, a panic, or data returned with an error is a violation. A rotating sample of every class (plus the valid originals) is evaluated in Coq and must give the same verdict / error class / decoded message. non-trivial = distinct rejected-expected mutant"
+	c.Obs.Rule = "mutants of valid ciphertexts produced by Cipher.Encrypt (payload 0..128 bytes): every single bit of one 72-byte message; per base message single bits per region, multi-bit, truncation to multiples of 16 and ragged, extensions, block swap, splice, reflection (same side decrypts), foreign keys (other id / same id / one key byte), random byte strings. Oracle on the implementation: any accepted mutant, a panic, or data returned with an error is a violation. A rotating sample of every class (plus the valid originals) is evaluated in Coq and must give the same verdict / error class / decoded message. Every input is presented through all three entry points (DecryptFromBuffer, Decode+Decrypt, DecodeWithoutCopy+Decrypt), which must agree and must not panic. non-trivial = distinct rejected-expected mutant"
 	c.Finish()
 }
